@@ -146,6 +146,12 @@ def cases(tier, seed, args):
                             K=K, F=F, T=T, seed=int(rng.integers(1 << 30)),
                             metric=['cos', 'euclidean', 'multiply'][(i // 4) % 3],
                             alg=['greedy', 'optimal'][(i // 12) % 2]))
+        # jitter levels from 10 % down to nothing (adjacent bins nearly / exactly proportional), single precision
+        for i in range(16 if q else 96):
+            out.append(dict(t='consist', aligner=['greedy', 'dhtv', 'greedy', 'identity'][i % 4], K=int(rng.integers(2, 5)),
+                            F=int(rng.choice([9, 17, 33])), T=int(rng.integers(8, 30)), seed=int(rng.integers(1 << 30)),
+                            metric=['euclidean', 'cos', 'euclidean', 'multiply'][(i // 4) % 4], alg=['greedy', 'optimal'][(i // 8) % 2],
+                            jitter=[1e-3, 1e-8, 0.0, 1e-6, 1e-10][i % 5], dtype=['float64', 'float32'][(i // 2) % 2]))
         # the top of the domain in every tier: F = 257 / 513 (the shipped DHTV defaults exist only there)
         for i in range(8 if q else 24):
             out.append(dict(t='consist', aligner=['greedy', 'dhtv_default', 'greedy', 'identity'][i % 4], K=int(rng.integers(2, 5)),
@@ -448,20 +454,20 @@ def _exact(case):
     return [rec]
 
 
-def _structured(rng, K, F, T):
-    """Nearly orthogonal non-negative activity patterns, equal across frequency up to 10 % jitter."""
+def _structured(rng, K, F, T, jitter=0.1, dtype='float64'):
+    """Nearly orthogonal non-negative activity patterns, equal across frequency up to a multiplicative jitter (<= 10 %)."""
     pat = np.zeros((K, T))
     owner = rng.permutation(np.arange(T) % K)
     pat[owner, np.arange(T)] = 1.0
     pat = pat * rng.uniform(0.5, 1.0, size=(K, T)) + 0.01 * rng.random((K, T))
-    m = pat[:, None, :] * rng.uniform(0.9, 1.0, size=(K, F, T))
-    return m
+    m = pat[:, None, :] * (1.0 - jitter * rng.uniform(0.0, 1.0, size=(K, F, T)))
+    return m.astype(dtype)
 
 
 def _consist(case):
     rng = np.random.default_rng(case['seed'])
     K, F, T = case['K'], case['F'], case['T']
-    ref = _structured(rng, K, F, T)
+    ref = _structured(rng, K, F, T, jitter=case.get('jitter', 0.1), dtype=case.get('dtype', 'float64'))
     kind = case['aligner']
     rec = dict(kind='consist', aligner='greedy', stft=0, start=0, width=0, shift=0, main=0, sub=0,
                expect_identity=False)
@@ -504,7 +510,7 @@ def _consist(case):
     mask = pa.apply_mapping(ref, field)
     mapping, exc = _call(al.calculate_mapping, mask)
     rec.update(truth=enc.aint(field + 1), exc=exc, mapping=[] if mapping is None else enc.aint(mapping),
-               fp=f'consist;aligner={kind};metric={case["metric"]};alg={case["alg"]}',
+               fp=f'consist;aligner={kind};metric={case["metric"]};alg={case["alg"]};jitter={case.get("jitter", 0.1)};dtype={case.get("dtype", "float64")}',
                key=f'consist:{case["seed"]}')
     return [rec]
 
